@@ -151,7 +151,8 @@ Clause(s, e) ==
                  /\ ~DedupExactOf(n.chunks, n.snaps, Body, f) THEN "P:DedupExact"
          ELSE "ok"
     [] e.a = "unlock" ->      \* C06: a (password, key file) pair unlocks iff the password is the key's own
-         IF On("P:UnlockOwnPasswordOnly") /\ (e.ok # (Tr.pw[e.pw] = Tr.pw[e.key])) THEN "P:UnlockOwnPasswordOnly" ELSE "ok"
+         \* (events with a field "imp" try a password that is close to, but not, the key's own: they must all fail)
+         IF On("P:UnlockOwnPasswordOnly") /\ (IF "imp" \in DOMAIN e THEN e.ok ELSE e.ok # (Tr.pw[e.pw] = Tr.pw[e.key])) THEN "P:UnlockOwnPasswordOnly" ELSE "ok"
     [] e.a = "restore" ->
          IF ~e.ok THEN (IF e.fault \/ ~On("P:RestoreOk") THEN "ok" ELSE "P:RestoreOk")
          ELSE IF On("P:RestoreSelect") /\ (Rng(e.tree) # ExpectedTree(s, e.u, Rng(e.S), Rng(e.F))) THEN "P:RestoreSelect"
